@@ -231,6 +231,9 @@ pub struct CmpCtx {
     pub may_truncate: Vec<String>,
     /// histogram / range nodes at which (in lenient mode) only keys and counts are compared
     pub skip_subs_at: Vec<String>,
+    /// attribution mode only: metric nodes that are not compared (they carry the signature of
+    /// another known finding)
+    pub skip_metrics: Vec<String>,
     /// attribution mode only: composite pages are not compared (see the known finding
     /// `C14:composite-lost-when-merged-into-empty-from-req`)
     pub lenient_empty_composite: bool,
@@ -264,6 +267,7 @@ fn cmp_buckets(n: &Node, real: &[(i64, u64, Vec<CR>)], exp: &[(i64, u64, Vec<SR>
 }
 
 fn cmp_one(n: &Node, real: &CR, exp: &SR, cx: &mut CmpCtx) -> Result<(), (String, String)> {
+    if cx.skip_metrics.contains(&n.name) { return Ok(()); }
     match (real, exp) {
         (CR::Hits(r), SR::Hits(e)) => if r == e { Ok(()) } else { Err(here(format!("top_hits {r:?} expected {e:?}"))) },
         (CR::Pct(r), SR::Metric { sorted, field, .. }) => cmp_pct(r, sorted, field.metric_factor()).map_err(here),
